@@ -25,6 +25,7 @@ Proof.
   - intros (_ & H & _). inversion H as [|? ? [H1 _] _]. discriminate.
   - eexists. split; [reflexivity|]. eexists. eexists. reflexivity.
 Qed.
+Print Assumptions C15_final_is_clean_refuted.
 
 (** the clean case the code handles: the same chain when the stream fits the limit ends with every
     process done *)
@@ -37,6 +38,7 @@ Proof.
   split; [vm_compute; reflexivity|]. split; [|vm_compute; discriminate].
   vm_compute. repeat constructor.
 Qed.
+Print Assumptions C15_clean_when_nothing_pending.
 
 (** the benign cells of the matrix, as a theorem over all schedules: a link of data-preserving
     toxics whose sender has closed and on which nothing can happen any more has no process left -
@@ -52,3 +54,4 @@ Proof.
   destruct (preserving_chains_end_clean chain src draws sd sigma l Hc Hrun Hnow Hnext Hrd) as (H1 & H2 & H3).
   split; [|exact H3]. split; [exact Hrd|]. split; assumption.
 Qed.
+Print Assumptions C15_preserving_chains_end_clean.
